@@ -1,6 +1,7 @@
 import VermouthProofs.C13_Disp
 import VermouthProofs.C13_Comp
 import VermouthProofs.C13_ReaderProofs
+import VermouthProofs.C13_Itp
 /-!
 # C13 — force-field, topology and mapping files load to exactly what they declare
 
@@ -75,6 +76,18 @@ one per ended `[ block ]` / `[ modification ]` section, in file order (`mapSpec`
 theorem mapping_emitted_per_declaration (P : MParams C) (lines : List Line) (s : MSt C)
     (h : mapRun P lines = some s) : s.out = mapSpec P [] (0, P.fresh) 0 lines :=
   map_out_spec P lines s h
+
+/-- **.itp files** (`ITPDirector`, which finalises at every header and refreshes its atom-name table
+when an `[ atoms ]` section ends): the blocks loaded are, per name, the last `[ moleculetype ]` declared
+with that name, keys in order of first declaration, one candidate per header, each holding the lines up
+to the next `[ moleculetype ]`. -/
+theorem itp_blocks_declared_last_wins {C : Type} (P : IParams C) (lines : List Line) (s : ISt C)
+    (hT : P.T.contains ["moleculetype"] = true)
+    (hS : ∀ sec t c c', sec ≠ ["moleculetype"] → P.handle sec t c = some c' → P.nameOf c' = P.nameOf c)
+    (hA : ∀ c, P.nameOf (P.atomsEnded c) = P.nameOf c) (h : itpRun P lines = some s) :
+    s.blocks = dictOfList ((itpSpec P [] none 0 lines).map (fun b => (P.nameOf b.2, b))) ∧
+    (itpSpec P [] none 0 lines).map (·.1) = hdrIdxs "moleculetype" 0 lines :=
+  ⟨itp_blocks_spec P lines s hT hS hA h, itpSpec_hdrs P hT [] 0 lines⟩
 
 /-! ### witnesses: the statement is FALSE for the dispatcher before the repairs -/
 
